@@ -1,5 +1,6 @@
 import SupervisorModel.Props.C08
 import SupervisorModel.Lemmas.Strip
+import SupervisorModel.Lemmas.CaptureStrip
 /-
   C07 — child output reaches the right log, complete and in order (dispatcher level).
 
@@ -272,6 +273,203 @@ theorem strip_fragmented_counterexample :
 example : CleanCut [104, 105, 27, 91, 51, 49, 109] [120] ∧ CleanCut [104, 105] [27, 91, 109, 120] := by
   unfold CleanCut; decide
 example : stripEscapes [104, 105, 27, 91, 51, 49, 109, 120] = [104, 105, 120] := by decide
+
+
+/-! ### capture and strip_ansi together
+
+  With strip_ansi every chunk handed to `_log` is stripped on its own, so the observables are a
+  function of the *chunks* (`CItem`, Lemmas/CaptureStrip.lean).  The chunks' bytes are exactly the
+  reference splitter's per-byte decisions, for every fragmentation; what fragmentation can change
+  is only where the chunk boundaries fall — hence the `CleanCut` hypothesis of the corollary. -/
+
+/-- one read, for either setting of strip_ansi (the chunk-level `feed_refines`) -/
+theorem feed_refines_chunks (c : Cfg) (hc : 0 < c.capMax) (hb : c.btok ≠ []) (he : c.etok ≠ [])
+    (x : Bytes) (s : S) (I : List CItem) (h : SimC c s I) :
+    ∃ I', SimC c (readEvent c x s) I' ∧
+      (∀ y, (x ≠ [] ∨ y = []) →
+        bytesC I' ++ spec c (readEvent c x s).p.mode ((readEvent c x s).p.buf ++ y)
+          = bytesC I ++ spec c s.p.mode (s.p.buf ++ (x ++ y))) ∧
+      (x = [] → (readEvent c x s).p.buf = []) := by
+  have herr := h.err
+  obtain ⟨⟨mode, buf, cap, closed⟩, outs, err⟩ := s
+  simp only at herr
+  subst herr
+  have hcne : c.capMax ≠ 0 := by omega
+  let s1 : S := { p := { mode := mode, buf := buf ++ x, cap := cap, closed := closed }, outs := outs, err := none }
+  have hscan := fun y hy => scan_refines c hcne hb he x.isEmpty y hy ((buf ++ x).length + 1) mode (buf ++ x) (by omega)
+  obtain ⟨hf, _, _⟩ := hscan [] (by simp)
+  let r := scanGo c x.isEmpty ((buf ++ x).length + 1) mode (buf ++ x)
+  let s2 : S := { s1 with p := { s1.p with buf := r.buf } }
+  have hs2 : SimC c s2 I := ⟨rfl, h.logged, h.plog, h.comm, h.cap⟩
+  obtain ⟨hs3, hm3, hb3, hc3⟩ := simC_performAll c hc r.acts s2 I hs2
+  have hro : recordOutput c x.isEmpty s1 = performAll c r.acts s2 := by
+    simp only [recordOutput, guard, s1, setP, r, s2, Option.isSome_none, Bool.false_eq_true, if_false, hf]
+  have hread : readEvent c x ⟨⟨mode, buf, cap, closed⟩, outs, none⟩ =
+      if x.isEmpty then close (performAll c r.acts s2) else performAll c r.acts s2 := by
+    simp only [readEvent, guard, hre_a1, hre_c0_0, hre_g0, setP, Bool.not_not]
+    simp only [Option.isSome_none, Bool.false_eq_true, if_false]
+    rw [show ({ p := { mode := mode, buf := buf ++ x, cap := cap, closed := closed }, outs := outs, err := none } : S) = s1 from rfl, hro]
+  -- `close` changes neither the log/event observables nor mode and buffer
+  have hclose : ∀ s3 : S, SimC c s3 (I ++ flatC mode r.acts) →
+      SimC c (close s3) (I ++ flatC mode r.acts) ∧ (close s3).p.mode = s3.p.mode ∧ (close s3).p.buf = s3.p.buf := by
+    intro s3 h3
+    have he3 := h3.err
+    obtain ⟨p3, outs3, err3⟩ := s3
+    simp only at he3; subst he3
+    simp only [close, guard, emit, setP]
+    simp only [Option.isSome_none, Bool.false_eq_true, if_false]
+    split
+    · exact ⟨h3, rfl, rfl⟩
+    · exact ⟨⟨rfl, by simpa [loggedOf_append, loggedOf] using h3.logged,
+        by simpa [plogOf_append, plogOf] using h3.plog,
+        by simpa [commOf_append, commOf] using h3.comm, h3.cap⟩, rfl, rfl⟩
+  have hfin : SimC c (readEvent c x ⟨⟨mode, buf, cap, closed⟩, outs, none⟩) (I ++ flatC mode r.acts) ∧
+      (readEvent c x ⟨⟨mode, buf, cap, closed⟩, outs, none⟩).p.mode = r.mode ∧
+      (readEvent c x ⟨⟨mode, buf, cap, closed⟩, outs, none⟩).p.buf = r.buf := by
+    rw [hread]
+    have hm := (hscan [] (by simp)).2.1
+    split
+    · obtain ⟨a, b, d⟩ := hclose _ hs3
+      exact ⟨a, by rw [b]; exact hm3.trans hm, by rw [d]; exact hb3⟩
+    · exact ⟨hs3, hm3.trans hm, hb3⟩
+  refine ⟨I ++ flatC mode r.acts, hfin.1, ?_, ?_⟩
+  · intro y hy
+    have hy' : x.isEmpty = false ∨ y = [] := by
+      rcases hy with hy | hy
+      · left; cases x <;> simp_all
+      · right; exact hy
+    obtain ⟨_, _, heq⟩ := hscan y hy'
+    rw [hfin.2.1, hfin.2.2, bytesC_append, bytesC_flatC, List.append_assoc, heq, List.append_assoc]
+  · intro hx
+    subst hx
+    rw [hfin.2.2]
+    exact scan_eof_empties c hcne ((buf ++ []).length + 1) mode (buf ++ []) (by omega)
+
+/-- `run_complete` for either setting of strip_ansi: after any fragmentation plus end of file the
+    observables are those of a chunk list `I` whose bytes are the reference splitter's decisions
+    for the whole stream -/
+theorem run_complete_chunks (c : Cfg) (hc : 0 < c.capMax) (hb : c.btok ≠ []) (he : c.etok ≠ [])
+    (chunks : List Bytes) (hne : ∀ x ∈ chunks, x ≠ []) :
+    ∃ I, SimC c (run c chunks) I ∧ bytesC I = spec c false chunks.flatten := by
+  have hinit : SimC c init [] :=
+    ⟨rfl, by simp [init, loggedOf, plainC], by simp [init, plogOf, plainC], by simp [init, commOf, sectionsGoC, AllOk],
+      EvOk_nil _ (by omega)⟩
+  have key : ∀ (l : List Bytes), (∀ x ∈ l, x ≠ []) → ∀ (s : S) (stream : Bytes),
+      (∃ I, SimC c s I ∧ ∀ y, bytesC I ++ spec c s.p.mode (s.p.buf ++ y) = spec c false (stream ++ y)) →
+      (∃ I, SimC c (feedAll c l s) I ∧
+        ∀ y, bytesC I ++ spec c (feedAll c l s).p.mode ((feedAll c l s).p.buf ++ y) = spec c false (stream ++ l.flatten ++ y)) := by
+    intro l
+    induction l with
+    | nil => intro _ s stream h; simpa [feedAll] using h
+    | cons x r ih =>
+      intro hl s stream ⟨I, hs, hi⟩
+      obtain ⟨I', hs', hi', _⟩ := feed_refines_chunks c hc hb he x s I hs
+      have hx : x ≠ [] := hl x (by simp)
+      have := ih (fun z hz => hl z (by simp [hz])) (readEvent c x s) (stream ++ x)
+        ⟨I', hs', fun y => by rw [hi' y (Or.inl hx), hi (x ++ y), List.append_assoc]⟩
+      simpa [feedAll, List.append_assoc] using this
+  obtain ⟨I, hs, hi⟩ := key chunks hne init [] ⟨[], hinit, fun y => by simp [init, bytesC]⟩
+  obtain ⟨I', hs', hi', hbuf⟩ := feed_refines_chunks c hc hb he [] _ I hs
+  have h1 := hi' [] (Or.inr rfl)
+  have h2 := hi []
+  simp only [List.append_nil, List.nil_append] at h1 h2
+  rw [hbuf rfl, spec_nil, List.append_nil, h2] at h1
+  exact ⟨I', hs', h1⟩
+
+/-- the plain chunks of `I`, in order -/
+def plainPieces : List CItem → List Bytes
+  | [] => []
+  | .chunk false d :: r => d :: plainPieces r
+  | _ :: r => plainPieces r
+
+theorem plainPieces_flatten (I : List CItem) : (plainPieces I).flatten = plainOf (bytesC I) := by
+  induction I with
+  | nil => rfl
+  | cons x r ih => cases x with
+    | chunk cap d => cases cap <;> simp [plainPieces, bytesC, plainOf_append, plainOf_bytes, ih]
+    | tag t => simp [plainPieces, bytesC, plainOf, ih]
+
+theorem plainC_pieces (f : Bytes → Bytes) (I : List CItem) : plainC f I = ((plainPieces I).map f).flatten := by
+  induction I with
+  | nil => rfl
+  | cons x r ih => cases x with
+    | chunk cap d => cases cap <;> simp [plainPieces, plainC, ih]
+    | tag t => simp [plainPieces, plainC, ih]
+
+/-- stripping piecewise equals stripping the whole when every piece boundary is a clean cut -/
+theorem strip_pieces_clean (l : List Bytes)
+    (hclean : ∀ (pre : List Bytes) (x : Bytes) (post : List Bytes), l = pre ++ x :: post → CleanCut pre.flatten x) :
+    (l.map (stripRef true)).flatten = stripRef true l.flatten := by
+  suffices h : ∀ (t : List Bytes) (pre : List Bytes), l = pre ++ t →
+      stripRef true (pre.flatten ++ t.flatten) = stripRef true pre.flatten ++ (t.map (stripRef true)).flatten by
+    have := h l [] rfl
+    simpa [stripRef] using this.symm
+  intro t
+  induction t with
+  | nil => intro pre _; simp
+  | cons x r ih =>
+    intro pre hp
+    have h1 := hclean pre x r hp
+    have h2 := ih (pre ++ [x]) (by simp [hp])
+    simp only [List.flatten_append, List.flatten_cons, List.flatten_nil, List.append_nil, List.map_cons] at h2 ⊢
+    unfold CleanCut at h1
+    rw [← List.append_assoc, h2, h1, List.append_assoc]
+
+/-- `capture_strip_partial`: capture on and strip_ansi on.  For every fragmentation there are
+    pieces — the chunks logged outside capture sections — whose concatenation is exactly the
+    reference's plain bytes (so the capture/plain division is fragmentation-independent also with
+    strip_ansi), the log is the pieces stripped one by one, and whenever all piece boundaries are
+    clean cuts the log is the plain bytes minus their escape sequences.  Without that hypothesis the
+    last conclusion is false (F12; the piece boundaries depend on the reads). -/
+theorem capture_strip_partial (c : Cfg) (hc : 0 < c.capMax) (hs : c.strip = true) (hl : c.hasLog = true)
+    (hb : c.btok ≠ []) (he : c.etok ≠ []) (chunks : List Bytes) (hne : ∀ x ∈ chunks, x ≠ []) :
+    ∃ pieces : List Bytes,
+      pieces.flatten = (refSplit c false chunks.flatten).plain ∧
+      loggedOf (run c chunks).outs = (pieces.map (stripRef true)).flatten ∧
+      ((∀ (pre : List Bytes) (x : Bytes) (post : List Bytes), pieces = pre ++ x :: post → CleanCut pre.flatten x) →
+        loggedOf (run c chunks).outs = stripRef true (refSplit c false chunks.flatten).plain) := by
+  obtain ⟨I, hsim, hbytes⟩ := run_complete_chunks c hc hb he chunks hne
+  have hp : (plainPieces I).flatten = (refSplit c false chunks.flatten).plain := by
+    rw [plainPieces_flatten, hbytes, plainOf_spec]
+  have hlog : loggedOf (run c chunks).outs = ((plainPieces I).map (stripRef true)).flatten := by
+    rw [hsim.logged, hl, if_pos rfl, plainC_pieces]
+    congr 2
+    funext d
+    simp [tr, hs, stripEscapes_eq_ref]
+  refine ⟨plainPieces I, hp, hlog, fun hclean => ?_⟩
+  rw [hlog, strip_pieces_clean _ hclean, hp]
+
+/-- the number of PROCESS_COMMUNICATION events does not depend on strip_ansi or the fragmentation:
+    one per closed section of the reference -/
+theorem one_event_per_section_any_strip (c : Cfg) (hc : 0 < c.capMax) (hb : c.btok ≠ []) (he : c.etok ≠ [])
+    (chunks : List Bytes) (hne : ∀ x ∈ chunks, x ≠ []) :
+    (commOf (run c chunks).outs).length = (refSplit c false chunks.flatten).sections.length := by
+  obtain ⟨I, hsim, hbytes⟩ := run_complete_chunks c hc hb he chunks hne
+  rw [AllOk_length hsim.comm, ← sections_spec, ← hbytes]
+  -- the number of closed sections is the number of END tags, whatever the transform
+  have : ∀ (f : Bytes → Bytes) (cur cur' : Bytes) (J : List CItem),
+      (sectionsGoC f cur J).length = (sectionsGo cur' (bytesC J)).length := by
+    intro f cur cur' J
+    induction J generalizing cur cur' with
+    | nil => rfl
+    | cons x r ih => cases x with
+      | chunk cap d =>
+        cases cap
+        · simp only [sectionsGoC, bytesC, sectionsGo_append, sectionsGo_bytes, List.nil_append, openOf_bytes]
+          exact ih _ _
+        · simp only [sectionsGoC, bytesC, sectionsGo_append, sectionsGo_bytes, List.nil_append, openOf_bytes]
+          exact ih _ _
+      | tag t => cases t <;> simp [sectionsGoC, bytesC, sectionsGo, ih _ _] <;> exact ih _ _
+  exact this _ _ _ _
+
+
+-- non-vacuity: capture and strip together, `ESC[31m r e d` BEGIN `x` END `ESC[0m .` cut inside the BEGIN tag (clean cuts)
+example :
+    let c : Cfg := { exCfg with strip := true }
+    loggedOf (run c [[27, 91, 51, 49, 109, 114, 101, 100] ++ stdout_BEGIN.take 7, stdout_BEGIN.drop 7 ++ [120] ++ stdout_END ++ [27, 91, 48, 109, 46]]).outs
+      = [114, 101, 100, 46] ∧
+    commOf (run c [[27, 91, 51, 49, 109, 114, 101, 100] ++ stdout_BEGIN.take 7, stdout_BEGIN.drop 7 ++ [120] ++ stdout_END ++ [27, 91, 48, 109, 46]]).outs
+      = [[120]] := by decide
 
 /-! ### PROCESS_LOG events carry the same bytes, chunk for chunk, with the dispatcher's channel -/
 
